@@ -11,6 +11,7 @@ import (
 
 	"verif/harness/core"
 	"verif/harness/gen"
+	"verif/harness/mon"
 	"verif/harness/omni"
 	"verif/harness/ref"
 )
@@ -624,6 +625,11 @@ func c05Real(s omniparser.Schema, input []byte, maxReads int) ([]ref.HEvent, str
 				return evs, "FATAL", "RawRecord failed: " + rerr.Error()
 			}
 			n := rr.Raw().(*idr.Node)
+			// the delivered node must be part of a sound tree before anything walks it (a cyclic or half-released structure would
+			// otherwise hang the comparison instead of being reported)
+			if _, problem := mon.AuditTree(mon.RootOf(n), 500000); problem != "" {
+				return evs, "UNSOUND", "the tree of delivered target " + fmt.Sprint(len(evs)) + " is not a sound tree: " + problem
+			}
 			evs = append(evs, ref.HEvent{Tree: realTree(n), Ancestry: realAncestry(n), IDs: realIDs(n, nil)})
 		case omni.FAIL:
 			return evs, "FAIL", err.Error()
